@@ -122,6 +122,9 @@ PROPS["C05"] = dict(
         J("TestC05_ECDSAPublic", 1500, 10000, shards=2),
         J("TestC05_Produced", 300, 2000, shards=2),
         J("TestC05_Enumerations", 3, 8, shards=2),
+        J("cfuzz:SER_E1", 150000, 90, kind="cfuzz", target="SER_E1", env={"VERIF_CFUZZ_FORK": "5"}),
+        J("cfuzz:SER_E2", 100000, 90, kind="cfuzz", target="SER_E2", env={"VERIF_CFUZZ_FORK": "5"}),
+        J("cfuzz:SER_FR", 150000, 60, kind="cfuzz", target="SER_FR", env={"VERIF_CFUZZ_FORK": "4"}),
     ],
 )
 
@@ -262,7 +265,11 @@ PROPS["C09"] = dict(
           "Non-trivial = the input is invalid in at least one way and the call returned; distinct by draw-record hash."),
     assumptions=["documented exceptions are excluded by construction: UintN(0), nil interface / callback arguments, permutation and KMAC sizes above 2^20, PRG positions beyond the documented 256 GiB stream, hashers whose ComputeHash returns fewer bytes than Size() claims, the no_cgo build",
                  "Go's -asan does not see over-reads that stay inside a slice's capacity; memory safety of the C layer on arbitrary bytes is the subject of the libFuzzer targets in cfuzz/ (when built) and of the semantic oracles of C05/C06"],
-    jobs=[J("TestC09_Calls", 3000, 20000, shards=16, journal=True), J("TestC09_Regressions", 1, 1, journal=True)],
+    jobs=[J("TestC09_Calls", 3000, 20000, shards=12, journal=True), J("TestC09_Regressions", 1, 1, journal=True),
+          J("cfuzz:SUM_VECTOR", 30000, 90, kind="cfuzz", target="SUM_VECTOR"),
+          J("cfuzz:LAGRANGE", 40000, 90, kind="cfuzz", target="LAGRANGE"),
+          J("cfuzz:G2_VECTOR", 30000, 90, kind="cfuzz", target="G2_VECTOR"),
+          J("cfuzz:VERIFY", 4000, 120, kind="cfuzz", target="VERIFY")],
 )
 
 PROPS["C18"] = dict(
@@ -290,15 +297,33 @@ PROPS["C19"] = dict(
 
 import c15_overlay
 import c20_build
+import cfuzz
+import json as _json
+import os as _os
+
+
+CFUZZ_TARGETS = {"C05": ["SER_E1", "SER_E2", "SER_FR"], "C09": ["SUM_VECTOR", "LAGRANGE", "G2_VECTOR", "VERIFY"]}
+
+
+def _f1_known(verif):
+    try:
+        ks = _json.load(open(_os.path.join(verif, "known_findings.json"))).get("findings", [])
+    except Exception:
+        return True
+    return any(k.get("id") == "F1" and k.get("status") == "known" for k in ks)
 
 
 def custom_command(job, tier, n, seed, rundir, repo, verif, work):
+    if job.get("kind") == "cfuzz":
+        return cfuzz.command(job, tier, n, seed, rundir, repo, verif, work)
     if job.get("kind") == "c15":
         return c15_overlay.command(job, tier, n, seed, rundir, repo, verif, work)
     raise RuntimeError("unknown job kind: %r" % job.get("kind"))
 
 
 def custom_build(pid, tier, repo, verif, work, goenv, log):
+    if pid in CFUZZ_TARGETS:
+        return cfuzz.build(CFUZZ_TARGETS[pid], repo, verif, work, goenv, log, _f1_known(verif)) is not None
     if pid == "C20":
         return c20_build.build(repo, verif, work, goenv, log) is not None
     if pid == "C15":
@@ -307,13 +332,18 @@ def custom_build(pid, tier, repo, verif, work, goenv, log):
 
 
 def custom_setup(repo, verif, work, goenv, log):
-    return c20_build.build(repo, verif, work, goenv, log) is not None and c15_overlay.build(repo, verif, work, goenv, log)
+    ok = c20_build.build(repo, verif, work, goenv, log) is not None and c15_overlay.build(repo, verif, work, goenv, log)
+    return ok and cfuzz.build(cfuzz.TARGETS, repo, verif, work, goenv, log, _f1_known(verif)) is not None
 
 
 def custom_replay(pid, path, repo, verif, work, goenv, log):
+    if pid in CFUZZ_TARGETS and "artefact-" in _os.path.basename(path):
+        return cfuzz.replay(path, repo, verif, work, goenv, log)
     if pid == "C15":
         return c15_overlay.replay(path, repo, verif, work, goenv, log)
     return None
 
 NOT_APPLICABLE = {}
-EXTRA_ENGINES = []
+EXTRA_ENGINES = [{"name": "cfuzz-libfuzzer", "path": "/verif/cfuzz", "serves_properties": ["C05", "C09"], "kind_free_text": "libFuzzer targets (clang -fsanitize=fuzzer,address,undefined) compiled against /repo's own C sources with in-target semantic oracles (canonical round trip, BLST ZCash differential, element-wise recomputation); pinned -seed/-runs in the quick tier, time-boxed forks in the thorough tier"},
+                 {"name": "overlay-inpackage", "path": "/verif/harness/inpkg", "serves_properties": ["C15"], "kind_free_text": "in-package exhaustive tape enumeration injected with go test -overlay"},
+                 {"name": "cfgworker", "path": "/verif/harness/cfgworker", "serves_properties": ["C20"], "kind_free_text": "worker program built in four build configurations, driven by a rapid differential property"}]
